@@ -26,6 +26,22 @@ type Scenario struct {
 	MempoolTTL    uint64 `json:"mempool_ttl"`
 	MaxPending    uint64 `json:"max_pending,omitempty"`
 	Ops           []Op   `json:"ops"`
+	// ViaClient: the node submits through its real DA client (da/jsonrpc.API, see world.ViaClient), whose own
+	// batch limit is ClientLimit (0 = the client's default of about 2 MB).
+	ViaClient   bool   `json:"via_client,omitempty"`
+	ClientLimit uint64 `json:"client_limit,omitempty"`
+	// Prometheus: the node runs with instrumentation.prometheus = true (labelled collectors).
+	Prometheus bool `json:"prometheus,omitempty"`
+}
+
+// GenVia draws whether the scenario runs through the real DA client, and the client's limit.
+func (sc *Scenario) GenVia(t *rapid.T) {
+	sc.Prometheus = rapid.IntRange(0, 4).Draw(t, "prometheus") == 0
+	if rapid.IntRange(0, 3).Draw(t, "viaclient") != 0 {
+		return
+	}
+	sc.ViaClient = true
+	sc.ClientLimit = rapid.SampledFrom([]uint64{0, 0, 700, 1000, 1600, 5000}).Draw(t, "clientlimit")
 }
 
 // GenTxs draws a small list of small transactions.
